@@ -72,6 +72,7 @@ def ttv_body(ctx, case):
     vdt = case.get("vdtypes") or [None] * len(des["sel"])
     passed = {m: cm.cast(vecs[m], dt) for m, dt in zip(des["sel"], vdt)}
     arg, kw = cm.call_args(des, N, passed, _junk(case.get("junk", "empty"), shape))
+    arg, kw = cm.present_call(case, arg, kw)  # (round 4) the same request as another caller would type it
     expect = cm.ref_ttv(A, vecs)
     bound = cm.ref_ttv(Aabs, {m: np.abs(v) for m, v in vecs.items()})
     nonconst = any(len(set(v.tolist())) > 1 for v in vecs.values())
@@ -80,9 +81,11 @@ def ttv_body(ctx, case):
               "sel-has-singleton" if any(shape[m] == 1 for m in des["sel"]) else "sel-no-singleton",
               *cm.object_labels(X), *sorted({"vector-dtype-" + (d or "float64") for d in vdt}),
               "vector-zero" if any(not np.any(v) for v in vecs.values()) else "vector-nonzero",
-              "values-mixed-kinds" if case.get("vvkind", h["vkind"]) != h["vkind"] else "values-same-kind")
+              "values-mixed-kinds" if case.get("vvkind", h["vkind"]) != h["vkind"] else "values-same-kind",
+              *cm.pres_labels(case))
+    pos, kw = cm.positional(case, kw, ("dims", "exclude_dims"))
     with ctx.sut(f"{kind}.ttv"):
-        R = X.ttv(arg, **kw)
+        R = X.ttv(arg, *pos, **kw)
     ctx.label(cm.result_kind(R))
     got = cm.result_array(ctx, R, "ttv-result", allow=TTV_ALLOWED[kind])
     if len(des["sel"]) == N:
@@ -91,7 +94,8 @@ def ttv_body(ctx, case):
         ctx.check(not isinstance(R, cm.SCALAR_TYPES), "ttv-partial-gives-tensor", type(R).__name__)
     exact = cm.intvalued(h) and case.get("vvkind", "int") == "int"
     nterms = cm.terms(h) * ref.prod(shape[m] for m in des["sel"]) * (len(des["sel"]) + 1)
-    cm.compare(ctx, got, expect, bound, nterms, exact, "ttv-value", f"des={des}")
+    cm.compare(ctx, got, expect, bound, cm.pres_nterms(case, nterms), cm.pres_exact(case, exact), "ttv-value",
+               f"des={des}")
 
 
 for _k, (_q, _t) in {"tensor": (1000, 10000), "sptensor": (1200, 12000), "ktensor": (800, 8000),
@@ -186,6 +190,7 @@ def ttm_body(ctx, case):
         passed = {m: sparse.csr_matrix(M) for m, M in passed.items()}
     junk = _junk(case.get("junk", "empty"), shape, ncols=2)
     arg, kw = cm.call_args(des, N, passed, junk)
+    arg, kw = cm.present_call(case, arg, kw)
     expect = cm.ref_ttm(A, mats)
     bound = cm.ref_ttm(Aabs, {m: np.abs(M) for m, M in mats.items()})
     nonconst = any(len(set(M.ravel().tolist())) > 1 for M in mats.values())
@@ -195,14 +200,17 @@ def ttm_body(ctx, case):
               "transpose" if transpose else "plain", "nonsquare" if nonsquare else "square", "matrix-" + mkind,
               *cm.object_labels(X), *sorted({"matrix-dtype-" + (d or "float64") for d in mdt.values()}),
               "matrix-has-zero-row" if any((~M.any(axis=1)).any() for M in mats.values()) else "matrix-no-zero-row",
-              "values-mixed-kinds" if case.get("mvkind", h["vkind"]) != h["vkind"] else "values-same-kind")
+              "values-mixed-kinds" if case.get("mvkind", h["vkind"]) != h["vkind"] else "values-same-kind",
+              *cm.pres_labels(case))
+    pos, kw = cm.positional(case, dict(kw, transpose=transpose), ("dims", "exclude_dims", "transpose"))
     with ctx.sut(f"{kind}.ttm"):
-        R = X.ttm(arg, transpose=transpose, **kw)
+        R = X.ttm(arg, *pos, **kw)
     ctx.label(cm.result_kind(R))
     got = cm.result_array(ctx, R, "ttm-result", allow=TTM_ALLOWED[kind])
     exact = cm.intvalued(h) and case.get("mvkind", "int") == "int"
     nterms = cm.terms(h) * ref.prod(shape[m] for m in des["sel"]) * (len(des["sel"]) + 1)
-    cm.compare(ctx, got, expect, bound, nterms, exact, "ttm-value", f"des={des} transpose={transpose}")
+    cm.compare(ctx, got, expect, bound, cm.pres_nterms(case, nterms), cm.pres_exact(case, exact), "ttm-value",
+               f"des={des} transpose={transpose}")
 
 
 for _k, (_q, _t) in {"tensor": (1000, 10000), "sptensor": (1000, 10000), "ttensor": (800, 8000)}.items():
